@@ -122,8 +122,11 @@ type c20Op struct {
 	begin bool
 	// reset only: the key channel was closed after all keys had been taken
 	fedAll bool
-	// overlapping ResetCids call only: cancels its context
+	// overlapping ResetCids call, abandoned client operation: cancels its context
 	cancel context.CancelFunc
+	// client read only: the caller may give up while the worker executes it
+	// (abandon: drawn; abandoned: it did)
+	abandon, abandoned bool
 }
 
 func (o *c20Op) closedErr() bool { return o.err != nil && errors.Is(o.err, keystore.ErrClosed) }
